@@ -48,6 +48,10 @@ def proj(det):
             last = getattr(det, "_verif_last", None)
             if last:
                 nums = [_f(last[0]), _f(last[1]), num(last[2])]
+        elif name == "MD3":
+            rd = det.reference_distribution
+            nums = [_f(det.curr_margin_density), _f(rd["md"]), _f(rd["md_std"]), _f(rd["acc"]), _f(rd["acc_std"]), num(int(rd["len"]))]
+            tag = "waiting=%d labelled=%d" % (int(bool(det.waiting_for_oracle)), 0 if det.oracle_data is None else len(det.oracle_data))
         elif name == "PCACD":
             nums = [num(det.num_pcs or 0), _f(det._change_score[-1]), num(len(det._change_score))]
     except Exception as ex:  # noqa
